@@ -76,8 +76,9 @@ def impl_pipeline(info, x, Ts, flags=FLAGS, mapping=None):
     names = list(out['order'])
     has_mol = E.atoms_of(lib) is not None
     out['ok'] = {}
-    for T in Ts:
-        out['ok'][T] = E.eval_object(est, T, (), flags, info, names, has_mol)
+    for i, T in enumerate(Ts):
+        # the elemental reference does not depend on T (and costs an RDKit parse per call): asked for at the first temperature only
+        out['ok'][T] = E.eval_object(est, T, (), flags if i == 0 else flags[:1], info, names, has_mol)
     out['range'] = est.get_range()
     out['n'] = len(est.correlations)
     if hasattr(est, 'Xp_invXX_Xp'):
@@ -170,7 +171,7 @@ def compare_one(ctx, info, where, impl, T, mol_rep, rep):
         good = bad('range', E.range_json(impl['range']), mo['range'])
     sc = scales(info, impl['counts'], T)
     sel_scale = 50.0 * where.get('natoms', 0)
-    good = E.compare_object(info, io, mo, sc, float(T), (), FLAGS, sel_scale, ('nd',), bad) and good
+    good = E.compare_object(info, io, mo, sc, float(T), (), FLAGS[:len(io['s'])], sel_scale, ('nd',), bad) and good
     if (impl['uq'] is None) != (mo['uq'] is None):
         good = bad('uq presence', impl['uq'], mo['uq'])
     elif impl['uq'] is not None:
@@ -301,6 +302,11 @@ def _val(o, T, p, fi=None):
     return v if fi is None else v[fi]
 
 
+def _flags_at(o, T):
+    """indices of the `S_elements` flags evaluated at `T` (all at the first temperature, the plain one elsewhere)"""
+    return range(len(o['ok'][T]['s']))
+
+
 def mixture_oracle(ctx, name, info, parts, outs, mix, Ts, separated=True, variant=None):
     """PIPE_mixture_additive on the real code: `outs` = pipeline outcomes of the parts, `mix` = of 'A.B…' (same temperatures)."""
     inp = {'scheme': name, 'parts': parts, 'pipeline': 'mixture', 'Ts': list(Ts)}
@@ -359,7 +365,7 @@ def mixture_oracle(ctx, name, info, parts, outs, mix, Ts, separated=True, varian
     for T in Ts:
         scs = [scales(info, o['counts'], T) for o in outs]
         for p, key, uses in (('cp', 'cp', ('cp',)), ('h', 'h', ('h',)), ('s', 's', ('s',)), ('g', 'g', ('h', 's'))):
-            for fi in ([None] if p in ('cp', 'h') else range(len(FLAGS))):
+            for fi in ([None] if p in ('cp', 'h') else _flags_at(mix, T)):
                 vs = [_val(o, T, p, fi) for o in outs]
                 mv = _val(mix, T, p, fi)
                 if any(v[0] == 'err' for v in vs) or mv[0] == 'err':
@@ -415,7 +421,7 @@ def same_outcome(ctx, info, inp, a, b, Ts, what):
     for T in Ts:
         sc = scales(info, a['counts'], T)
         for p, uses in (('cp', ('cp',)), ('h', ('h',)), ('s', ('s',)), ('g', ('h', 's'))):
-            for fi in ([None] if p in ('cp', 'h') else range(len(FLAGS))):
+            for fi in ([None] if p in ('cp', 'h') else _flags_at(a, T)):
                 va, vb = _val(a, T, p, fi), _val(b, T, p, fi)
                 if va[0] == 'err' or vb[0] == 'err':
                     if va[0] != vb[0]:
@@ -786,17 +792,25 @@ def variant_library(name, lib, seed, memo):
         r = info.corr[k].get_range()
         return r is not None and float(r[1]) - float(r[0]) > 10.0
     ranged = [k for k in partial if k != cut and wide(k)]
-    if len(ranged) < 2 and cut is None:
+    da = db = split = None
+    for i in range(len(ranged)):
+        for j in range(i + 1, len(ranged)):
+            ra, rb = info.corr[ranged[i]].get_range(), info.corr[ranged[j]].get_range()
+            lo, hi = max(float(ra[0]), float(rb[0])), min(float(ra[1]), float(rb[1]))
+            if hi - lo > 10.0:
+                da, db, split = ranged[i], ranged[j], (lo + hi) / 2.0
+                break
+        if da is not None:
+            break
+    if da is None and cut is None:
         return None
-    da, db = (ranged[0], ranged[1]) if len(ranged) >= 2 else (None, None)
     contents = []
     for k, ps in lib.contents.items():
         nm = str(k)
         if nm in (da, db) and SET in ps:
             lo, hi = (float(v) for v in ps[SET].get_range())
             c2 = copy.copy(ps[SET])
-            mid = (lo + hi) / 2.0
-            c2.set_range((lo, mid - 1.0) if nm == da else (mid + 1.0, hi))
+            c2.set_range((lo, split - 1.0) if nm == da else (split + 1.0, hi))
             ps = dict(ps)
             ps[SET] = c2
         contents.append((k, ps))
@@ -813,7 +827,8 @@ def variant_library(name, lib, seed, memo):
 def variant_outcome_oracle(ctx, name, info, smi, out, what, Ts, variant):
     """which way `Estimate` must go on a variant library, from how the variant was built (C01_missing_iff, C20_out_of_basis,
     C01_range_inter): a descriptor without data → GroupMissingDataError; else the descriptor cut from the uncertainty basis →
-    ValueError; else both descriptors with disjoint ranges → AssertionError; else an estimate"""
+    ValueError; else the descriptors' ranges (two of them narrowed to disjoint intervals) have an empty intersection → AssertionError;
+    else an estimate"""
     if 'counts' not in out:
         return True
     names = set(out['counts'])
@@ -821,10 +836,12 @@ def variant_outcome_oracle(ctx, name, info, smi, out, what, Ts, variant):
         want = 'GroupMissingDataError'
     elif what['cut'] is not None and what['cut'] in names:
         want = 'ValueError'
-    elif what['disjoint'] and set(what['disjoint']) <= names:
-        want = 'AssertionError'
     else:
-        want = 'estimate'
+        rs = [info.corr[nm].get_range() for nm in names if info.corr[nm].get_range() is not None]
+        empty = bool(rs) and max(float(r[0]) for r in rs) > min(float(r[1]) for r in rs)
+        want = 'AssertionError' if empty else 'estimate'
+        if what['disjoint'] and set(what['disjoint']) <= names and not empty:
+            raise common.MachineryError('variant library: the two narrowed ranges are not disjoint')
     ctx.count('pipe_variant_expected_' + want)
     if outcome_class(out) != want:
         ctx.violation('pipeline on a library variant: Estimate does not stop where its stages say (missing data, outside the uncertainty basis, '
